@@ -48,7 +48,7 @@ def log(*a):
 class Unit:
     """One harness translation unit; built once per flavour."""
 
-    def __init__(self, name, src, std="c++20", defs=(), flavours=None, shards=None, gen=None, args=(), libs=()):
+    def __init__(self, name, src, std="c++20", defs=(), flavours=None, shards=None, gen=None, args=(), libs=(), only_kinds=None):
         self.name = name
         self.src = src
         self.std = std
@@ -58,6 +58,7 @@ class Unit:
         self.gen = gen  # optional callable(path, tier) generating the source
         self.args = list(args)
         self.libs = list(libs)
+        self.only_kinds = set(only_kinds) if only_kinds else None  # keep only these violation kinds from this unit (reuse of another property's workload)
 
 
 def flavour_parts(fl):
@@ -234,6 +235,7 @@ def run_check(prop, tier, seed, P, only_units=None, quiet=False):
             return j, -999, "driver wall-clock watchdog"
 
     summaries = []
+    sites = set()
     ops = {}
     samples = []
     tallies = {}
@@ -264,13 +266,17 @@ def run_check(prop, tier, seed, P, only_units=None, quiet=False):
                     if len(samples) < 400:
                         samples.append(r)
                 elif k == "tally":
-                    tallies[r["key"]] = tallies.get(r["key"], 0) + r["n"]
+                    if u.only_kinds is None or r["key"].split("|", 1)[0] in u.only_kinds:
+                        tallies[r["key"]] = tallies.get(r["key"], 0) + r["n"]
                 elif k == "bulk":
                     bulk_distinct += r["distinct"]
                 elif k == "note":
                     pass
+                elif k == "site":
+                    sites.add((r.get("file"), r.get("line")))
                 elif k in VIOL_KINDS:
-                    records.append(r)
+                    if u.only_kinds is None or k in u.only_kinds:
+                        records.append(r)
             if not got_summary and rc == 0:
                 inconclusive.append(f"{out}: no summary record")
     t_run = time.time() - t0 - t_build
@@ -373,6 +379,8 @@ def run_check(prop, tier, seed, P, only_units=None, quiet=False):
     )
     if inconclusive:
         ev["coverage"]["inconclusive"] = inconclusive[:20]
+    if P.get("extra_evidence"):
+        ev["coverage"].update(P["extra_evidence"](dict(sites=sites, repo=REPO)))
     os.makedirs(os.path.join(ROOT, "evidence"), exist_ok=True)
     with open(os.path.join(ROOT, "evidence", prop + ".json"), "w") as fh:
         json.dump(ev, fh, indent=1)
